@@ -296,3 +296,57 @@ def disp_report(env, ny, symmetry):
     free = [j for j in range(ny) if j != root]
     env.eq("C10,C04,C07", "reported displacements of the free nodes == their entries of the solution vector (Lagrange multipliers dropped)",
            h.compute(ins)["disp"][free], u[:6 * ny].reshape(ny, 6)[free])
+
+
+@job("c10.moment_only", ("C10",), cfgs=[dict(ny=2, symmetry=True), dict(ny=3, symmetry=False)], ranges=R10, cost=5)
+def moment_only(env, ny, symmetry):
+    """a load set made of nodal moments alone (every force component exactly zero) and one made of forces alone are solved
+    like any other: the reported state is the solution of the clamped system for that right-hand side (linearity in the loads
+    has no special case for vanishing forces or moments)"""
+    s = surface(name="wing", nx=2, ny=ny, symmetry=symmetry, side="left")
+    h = env.comp("fem", lambda: cls("structures.fem.FEM")(surface=s))
+    ins = h.inputs()
+    k = ins["local_stiff_transformed"]
+    n = 6 * ny + 6
+    K = np.empty((n, n), dtype=object if env.sym else float)
+    K[...] = 0 * np.asarray(ins["forces"]).reshape(-1)[0]
+    for e in range(ny - 1):
+        K[6 * e:6 * e + 12, 6 * e:6 * e + 12] = K[6 * e:6 * e + 12, 6 * e:6 * e + 12] + k[e]
+    root = ny - 1 if symmetry else (ny - 1) // 2
+    for d in range(6):
+        K[6 * root + d, 6 * ny + d] = K[6 * root + d, 6 * ny + d] + 10 ** 9
+        K[6 * ny + d, 6 * root + d] = K[6 * ny + d, 6 * root + d] + 10 ** 9
+    f0 = np.asarray(ins["forces"]).reshape(-1)
+    for label, keep in (("moments only", lambda i: i % 6 >= 3), ("forces only", lambda i: i % 6 < 3)):
+        f = f0.copy()
+        for i in range(6 * ny):
+            if not keep(i):
+                f[i] = 0 * f[i] if not env.sym else S.lift(0)
+        for i in range(6 * ny, n):
+            f[i] = 0 * f[i] if not env.sym else S.lift(0)
+        insL = dict(ins)
+        insL["forces"] = f
+        if env.sym:
+            del spshim.SOLVES[:]
+            x = h.solve_nonlinear(insL)["disp_aug"]
+            ok = len(spshim.SOLVES) == 1
+            if not spshim.SOLVES:
+                # nothing was solved: right only for the zero load set, whose solution is zero
+                env.eq("C10", "%s: no solve performed, so the loads are all zero" % label, np.asarray(f, dtype=object).reshape(-1), 0 * np.asarray(f, dtype=object).reshape(-1))
+                env.eq("C10", "%s: no solve performed, so the reported state is zero" % label, np.asarray(x, dtype=object).reshape(-1), 0 * np.asarray(x, dtype=object).reshape(-1))
+            else:
+                env.holds("C10", "%s: solve_nonlinear performs one solve of the clamped system" % label, ok, "%d solves" % len(spshim.SOLVES))
+            if ok:
+                rec = spshim.SOLVES[0]
+                env.eq("C10", "%s: the system solved is the clamped stiffness matrix" % label, rec["A"], S.lift(K))
+                # up to a common scaling of the right-hand side (b = c f, reported = x / c): b_i f_k == b_k f_i, reported_i b_k == x_i f_k
+                b = np.asarray(rec["b"], dtype=object).reshape(-1)
+                fv = np.asarray(f, dtype=object).reshape(-1)
+                kk = [i for i in range(6 * ny) if keep(i)][0]
+                env.eq("C10", "%s: ... with these loads (possibly scaled) as right-hand side" % label, b * fv[kk], b[kk] * fv)
+                env.eq("C10", "%s: the reported state is the solution of the system for these loads" % label,
+                       np.asarray(x, dtype=object).reshape(-1) * b[kk], np.asarray(rec["x"], dtype=object).reshape(-1) * fv[kk])
+        else:
+            x = h.solve_nonlinear(insL)["disp_aug"]
+            xs = np.linalg.solve(np.asarray(K, dtype=float), np.asarray(f, dtype=float))
+            env.eq("C10", "%s: the reported state is the solution of that system" % label, np.asarray(x, dtype=float).reshape(-1)[:6 * ny], xs[:6 * ny])
